@@ -3,6 +3,7 @@ package main
 import (
 	"fmt"
 	"strings"
+	"time"
 )
 
 // ---------------------------------------------------------------------------------------------
@@ -45,6 +46,23 @@ func genScenario(r *Rng, maxMsgs, maxRcpts int) *SmtpScenario {
 		sc.Helo = []string{"client.example.net", "localhost", "[192.0.2.1]"}[r.Intn(3)]
 	}
 	sc.NoNoop = r.Chance(30)
+	// STARTTLS sessions: a second EHLO inside TLS, whose capability list may differ from the first one
+	if r.Chance(25) {
+		sc.TLS = []string{"mandatory", "opportunistic"}[r.Intn(2)]
+		if r.Chance(90) {
+			sc.Caps = append(sc.Caps, "STARTTLS")
+			if r.Chance(70) {
+				lines := []string{"verif.example greets you again"}
+				for _, cp := range capPool {
+					if r.Chance(45) {
+						lines = append(lines, cp)
+					}
+				}
+				// greeting 0, EHLO 1, STARTTLS 2, handshake 3, EHLO 4
+				sc.Script[4] = SrvAction{Kind: "reply", Code: 250, Text: strings.Join(lines, "\n")}
+			}
+		}
+	}
 	if r.Chance(30) {
 		sc.DSN = true
 		if r.Chance(60) {
@@ -209,7 +227,35 @@ func init() {
 				npos, verbs := positionsOf(sc)
 				for pos := 0; pos < npos; pos++ {
 					sc2 := *sc
-					sc2.Script = map[int]SrvAction{pos: {Kind: "stall"}}
+					sc2.Script = map[int]SrvAction{}
+					for k, v := range sc.Script {
+						sc2.Script[k] = v
+					}
+					sc2.Script[pos] = SrvAction{Kind: "stall"}
+					sc2.Timeout = 300 * time.Millisecond
+					if verbs[pos] == "DATA" && sc.TLS == "" {
+						// also: the server accepts DATA and then stops reading, while the content is larger than
+						// what the transport buffers: the client waits in a WRITE
+						sc3 := sc2
+						sc3.Script = map[int]SrvAction{}
+						for k, v := range sc.Script {
+							sc3.Script[k] = v
+						}
+						sc3.Script[pos] = SrvAction{Kind: "deaf"}
+						sc3.Msgs = append([]SmtpMsg(nil), sc.Msgs...)
+						for mi := range sc3.Msgs {
+							sc3.Msgs[mi].Body = ""
+							sc3.Msgs[mi].BigBody = []int{0, 300 << 10, 1 << 20}[c.Rng.Intn(3)]
+						}
+						run3 := runAndCompare(c, &sc3, "deaf@DATA")
+						if run3 != nil && run3.Panic == nil {
+							oracleStalls(c, &sc3, run3)
+							c.rep.OracleChecked++
+							if run3.Err == nil {
+								c.Violate("c17-no-error", "the server stopped reading after DATA but DialAndSend returned nil", &sc3)
+							}
+						}
+					}
 					run := runAndCompare(c, &sc2, "stall@"+verbs[pos])
 					if run == nil || run.Panic != nil {
 						continue
